@@ -4,10 +4,10 @@ CONSTANTS
   K = 2
   NF = 2
   NG = 2
-  PF = "p2a"
-  TF = "t22b"
-  PG = "p2b"
-  TG = "t22b"
+  PF = "p2s"
+  TF = "t22a"
+  PG = "p2s"
+  TG = "t22s"
   LAYOUTS = {"dfs", "hole", "rev", "low"}
   EMIT = TRUE
 VIEW View
